@@ -140,7 +140,12 @@ func (e *Engine) Discharge(obls []*Obligation, timeoutS, par int, keepScripts st
 				os.MkdirAll(keepScripts, 0o755)
 				os.WriteFile(filepath.Join(keepScripts, sanitize(ob.Name)+".smt2"), []byte(script), 0o644)
 			}
-			r := solveScript(dir, ob.Name, script, timeoutS)
+			tmo := timeoutS
+			if ob.Kind == "vacuity" && tmo > 10 {
+				// reachability canaries only need "not unsat": no point in waiting long
+				tmo = 10
+			}
+			r := solveScript(dir, ob.Name, script, tmo)
 			if r.status != "unsat" && r.status != "sat" && ob.Kind != "vacuity" {
 				// Nonlinear integer terms (division or product of two symbolic
 				// values) make the solvers give up on goals that do not depend
